@@ -134,6 +134,189 @@ func c19BodyStr(b Body) string {
 	return fmt.Sprint(b)
 }
 
+// ---- what the Go parser sees in a record body, in the vocabulary of the Lean model
+// (Framing.Mrt.parsePeerTable / parseRib / parseBgp4mp): attributes and embedded BGP messages
+// as octets
+
+func c19AttrBytes(e *RibEntry) []byte {
+	var b []byte
+	for _, a := range e.PathAttributes {
+		ab, _ := a.Serialize(&bgp.MarshallingOption{MRT: true})
+		b = append(b, ab...)
+	}
+	return b
+}
+
+func c19PtabStr(t *PeerIndexTable) string {
+	var sb strings.Builder
+	fmt.Fprintf(&sb, "ok %s %s %d", c19Hex(t.CollectorBgpId.AsSlice()), c19Hex([]byte(t.ViewName)), len(t.Peers))
+	for _, p := range t.Peers {
+		fmt.Fprintf(&sb, " %d %s %s %d", p.Type, c19Hex(p.BgpId.AsSlice()), c19Hex(p.IpAddress.AsSlice()), p.AS)
+	}
+	return sb.String()
+}
+
+func c19RibStr(u *Rib, full bool) string {
+	var sb strings.Builder
+	nl, _ := u.Prefix.Serialize()
+	nls := c19Hex(nl)
+	switch u.Family {
+	case bgp.RF_IPv4_UC, bgp.RF_IPv4_MC, bgp.RF_IPv6_UC, bgp.RF_IPv6_MC:
+	default:
+		if !full {
+			nls = "opaque"
+		}
+	}
+	fmt.Fprintf(&sb, "ok %d %d %d %s %d", u.SequenceNumber, u.Family.Afi(), u.Family.Safi(), nls, len(u.Entries))
+	for _, e := range u.Entries {
+		fmt.Fprintf(&sb, " %d %d %d", e.PeerIndex, e.OriginatedTime, e.PathIdentifier)
+		if full {
+			sb.WriteString(" " + c19Hex(c19AttrBytes(e)))
+		}
+	}
+	return sb.String()
+}
+
+func c19B4Hdr(h *BGP4MPHeader) string {
+	return fmt.Sprintf("%d %d %d %d %s %s", h.PeerAS, h.LocalAS, h.InterfaceIndex, h.AddressFamily, c19Hex(h.PeerIpAddress.AsSlice()), c19Hex(h.LocalIpAddress.AsSlice()))
+}
+
+func c19B4Str(b Body, full bool) string {
+	switch x := b.(type) {
+	case *BGP4MPStateChange:
+		return fmt.Sprintf("state %s %d %d", c19B4Hdr(x.BGP4MPHeader), x.OldState, x.NewState)
+	case *BGP4MPMessage:
+		pl := x.BGPMessagePayload
+		if pl == nil && x.BGPMessage != nil {
+			pl, _ = x.BGPMessage.Serialize()
+		}
+		if !full { // a mutated message may re-serialise in normalised form: only its extent is compared
+			return fmt.Sprintf("msg %s len %d", c19B4Hdr(x.BGP4MPHeader), x.BGPMessage.Header.Len)
+		}
+		return fmt.Sprintf("msg %s %s", c19B4Hdr(x.BGP4MPHeader), c19Hex(pl))
+	}
+	return "?"
+}
+
+// an error of the framing layer (octets missing, bad length), as opposed to one raised inside
+// an attribute / NLRI / BGP message decoder, which the model treats as opaque
+func c19FramingErr(err error, td2 bool) bool {
+	s := err.Error()
+	if !td2 && (strings.Contains(s, "network b") || strings.Contains(s, "prefix misses length")) {
+		return false // raised inside the embedded UPDATE
+	}
+	for _, k := range []string{"not all Peer bytes are available", "not all PeerIndexTable bytes are available", "not all RibEntry bytes are available",
+		"not all RibIpv4Unicast message bytes available", "not all BGP4MPMessageAS4 bytes available", "not all BGP4MPMessageAS bytes available",
+		"not all IPv4 peer bytes available", "not all IPv6 peer bytes available", "not all BGP4MPStateChange bytes available",
+		"unsupported address family", "not all BGP message header", "marker is not all ones",
+		"network bytes is short", "network bit length is too long", "prefix misses length"} {
+		if strings.Contains(s, k) {
+			return true
+		}
+	}
+	return false
+}
+
+// model correspondence for one record body (TABLE_DUMPv2 / BGP4MP); valid = built by the package
+func c19AskBody(o *vOut, typ MRTType, sub uint16, body []byte, valid bool) {
+	if typ != TABLE_DUMPv2 && typ != BGP4MP {
+		return
+	}
+	h := &MRTHeader{Type: typ, SubType: sub, Len: uint32(len(body))}
+	m, err := func() (m *MRTMessage, err error) {
+		defer func() {
+			if e := recover(); e != nil {
+				err = fmt.Errorf("panic")
+			}
+		}()
+		return ParseBody(body, h)
+	}()
+	tag := "mutated"
+	if valid {
+		tag = "valid"
+	}
+	if err != nil {
+		generic := typ == TABLE_DUMPv2 && (sub == 6 || sub == 12)
+		if !c19FramingErr(err, typ == TABLE_DUMPv2) || generic || typ == TABLE_DUMPv2 && (sub == 7 || sub == 0 || sub > 12) {
+			o.stat("model_body_skipped_content_error", 1)
+			return
+		}
+		switch {
+		case typ == TABLE_DUMPv2 && sub == 1:
+			o.ask("err", "mrt.ptab %s", c19Hex(body))
+		case typ == TABLE_DUMPv2:
+			o.ask("err", "mrt.ribshape %d 0 %s", sub, c19Hex(body))
+		default:
+			o.ask("err", "mrt.bgp4mpshape %d %s", sub, c19Hex(body))
+		}
+		o.stat("model_body_"+tag+"_err", 1)
+		return
+	}
+	switch x := m.Body.(type) {
+	case *PeerIndexTable:
+		o.ask(c19PtabStr(x), "mrt.ptab %s", c19Hex(body))
+	case *Rib:
+		if valid {
+			o.ask(c19RibStr(x, true), "mrt.rib %d %d %s", sub, x.Prefix.Len(), c19Hex(body))
+		} else {
+			o.ask(c19RibStr(x, false), "mrt.ribshape %d %d %s", sub, x.Prefix.Len(), c19Hex(body))
+		}
+	case *BGP4MPStateChange, *BGP4MPMessage:
+		if valid {
+			o.ask(c19B4Str(m.Body, true), "mrt.bgp4mp %d %s", sub, c19Hex(body))
+		} else {
+			o.ask(c19B4Str(m.Body, false), "mrt.bgp4mpshape %d %s", sub, c19Hex(body))
+		}
+	default:
+		return
+	}
+	o.stat("model_body_"+tag+"_ok", 1)
+}
+
+// serialisation side: the value handed to the package's Serialize, replayed by the model
+func c19AskSer(o *vOut, m *MRTMessage, b []byte) {
+	body := b[MRT_COMMON_HEADER_LEN:]
+	switch x := m.Body.(type) {
+	case *PeerIndexTable:
+		var sb strings.Builder
+		for _, p := range x.Peers {
+			fmt.Fprintf(&sb, " %d %s %s %d", p.Type, c19Hex(p.BgpId.AsSlice()), c19Hex(p.IpAddress.AsSlice()), p.AS)
+		}
+		o.ask(c19Hex(body), "mrt.ptabser %s %s %d%s", c19Hex(x.CollectorBgpId.AsSlice()), c19Hex([]byte(x.ViewName)), len(x.Peers), sb.String())
+	case *Rib:
+		var sb strings.Builder
+		for _, e := range x.Entries {
+			fmt.Fprintf(&sb, " %d %d %d %s", e.PeerIndex, e.OriginatedTime, e.PathIdentifier, c19Hex(c19AttrBytes(e)))
+		}
+		nl, _ := x.Prefix.Serialize()
+		ap := 0
+		if x.isAddPath {
+			ap = 1
+		}
+		o.ask(c19Hex(body), "mrt.ribser %d %d %d %d %s %d%s", ap, x.SequenceNumber, x.Family.Afi(), x.Family.Safi(), c19Hex(nl), len(x.Entries), sb.String())
+	case *BGP4MPStateChange:
+		as4 := 0
+		if x.isAS4 {
+			as4 = 1
+		}
+		o.ask(c19Hex(body), "mrt.bgp4mpser %d state %s %d %d", as4, c19B4Hdr(x.BGP4MPHeader), x.OldState, x.NewState)
+	case *BGP4MPMessage:
+		as4 := 0
+		if x.isAS4 {
+			as4 = 1
+		}
+		pl := x.BGPMessagePayload
+		if pl == nil {
+			pl, _ = x.BGPMessage.Serialize()
+		}
+		o.ask(c19Hex(body), "mrt.bgp4mpser %d msg %s %s", as4, c19B4Hdr(x.BGP4MPHeader), c19Hex(pl))
+	default:
+		return
+	}
+	o.ask(c19Hex(b), "mrt.record %d %d %d %s", m.Header.Timestamp, m.Header.Type, m.Header.SubType, c19Hex(body))
+	o.stat("model_ser_asks", 1)
+}
+
 func c19HdrErr(err error) string {
 	if strings.Contains(err.Error(), "expected: 16") {
 		return "err shortET"
@@ -572,6 +755,10 @@ func TestVerifC19(t *testing.T) {
 			continue
 		}
 		pool = append(pool, b)
+		if res == "ok" {
+			c19AskBody(o, m.Header.Type, m.Header.SubType, b[MRT_COMMON_HEADER_LEN:], true)
+			c19AskSer(o, m, b)
+		}
 		if len(pool) == 1 {
 			o.sample("mrt " + label + ": " + c19Hex(b))
 		}
@@ -599,6 +786,9 @@ func TestVerifC19(t *testing.T) {
 			mb := append([]byte(nil), b[:cut]...)
 			binary.BigEndian.PutUint32(mb[8:], uint32(cut-MRT_COMMON_HEADER_LEN))
 			tryBody(mb)
+			if i%6 == 0 || cut < MRT_COMMON_HEADER_LEN+48 {
+				c19AskBody(o, m.Header.Type, m.Header.SubType, mb[MRT_COMMON_HEADER_LEN:], false)
+			}
 		}
 		for k := 0; k < 6; k++ {
 			mb := c19Mutate(r, b)
@@ -607,6 +797,9 @@ func TestVerifC19(t *testing.T) {
 				copy(mb[4:8], b[4:8])
 			}
 			tryBody(mb)
+			if len(mb) >= MRT_COMMON_HEADER_LEN {
+				c19AskBody(o, MRTType(binary.BigEndian.Uint16(mb[4:])), binary.BigEndian.Uint16(mb[6:]), mb[MRT_COMMON_HEADER_LEN:], false)
+			}
 		}
 
 		// ---- splitter on streams of records
